@@ -452,6 +452,15 @@ func run(r *core.Run) int {
 			}
 		}
 	}
+	// an authority that is its own trust anchor: a single self-signed TSA
+	// certificate the caller put into its root pool
+	for _, mt := range []string{sims.JWS, sims.COSE} {
+		for _, b := range []string{"granted", "leaf-weak-key-rsa1024", "leaf-weak-key-p224", "leaf-ku-contentcommitment-only", "leaf-eku-extra", "leaf-eku-not-critical", "leaf-ca-true", "imprint-of-other-bytes"} {
+			for _, v := range []string{"absent", "vector:OK", "vector:NonRevokable", "vector:Revoked"} {
+				cases = append(cases, &Case{MT: mt, Kind: "p256", Scheme: "notary.x509", Behaviour: b, TSALen: 1, Validator: v})
+			}
+		}
+	}
 	// a caller-written Timestamper: only what the statement demands of the
 	// library itself is at stake (a GRANTED token, chain, trust, revocation) -
 	// imprint and nonce of the reply are the Timestamper's to check
